@@ -56,7 +56,7 @@ struct CaseSpec
     int junk = 0;          // input packets carry junk device/stream/sequence values
     int api = 0;           // 0 iterator-of-Packet, 1 single packet, 2 iterator-of-shared_ptr
     int pre = 0;           // earlier encode call on the SAME encoder: 0 none; same context, other version: 1 [small data], 2 [small status], 3 [segmenting data];
-                           // same version, [small data]: 4 larger max, 5 smaller max, 6 same context
+                           // same version, [small data]: 4 larger max, 5 smaller max, 6 same context, 7 minimum above this call's maximum
     std::vector<PSpec> b;
 };
 
@@ -506,6 +506,11 @@ static void judge(W& w, const std::string& prop, const CaseSpec& c)
             p0.mx = 25;          // smaller frames before
             p0.mn = std::min<size_t>(p0.mn, 25);
         }
+        if (c.pre == 7)
+        {
+            p0.mn = 4 * c.mx;    // an earlier call whose MINIMUM exceeds this call's maximum (every limit of the earlier context is
+            p0.mx = 4 * c.mx + 100;   // larger than every limit of this one)
+        }
         PSpec ps;
         ps.mt = c.pre == 2 ? 3 : 1;
         ps.len = c.pre == 3 ? (uint32_t) (2 * (c.mx - 24) + 1) : 3;
@@ -692,7 +697,7 @@ static void runTask(W& w, const std::string& prop, const Domain& d, const Task& 
             exec();
             if (t.part == 'A' && (t.n <= 2 || d.thorough) && t.n <= 3)
             {
-                for (c.pre = 1; c.pre <= 6; ++c.pre)
+                for (c.pre = 1; c.pre <= 7; ++c.pre)
                     exec();
                 c.pre = 0;
             }
@@ -1257,7 +1262,7 @@ int main(int argc, char** argv)
         Domain dom = makeDomain(prop, thorough);
         run.rule = "full cartesian product of boundary-centred payload lengths {1,2,u-1,u,u+1,2u-1,2u,2u+1,3u+1} (u=max-24) x message types x "
                    "batch sizes x frame-size contexts on fresh real Encoder objects and on encoders that already made one call (same context and another version: small data / small status / "
-                   "segmenting batch; same version: larger, smaller and equal frame size), plus typed prototypes, header-field sweeps, extremes; "
+                   "segmenting batch; same version: larger, smaller and equal frame size, and a minimum above this call's maximum), plus typed prototypes, header-field sweeps, extremes; "
                    "distinct = distinct observed frame structures (frame sizes, messages per frame, slice lengths and segment flags)";
         run.replay_case = [prop](W& w, const std::string& cs) {
             CaseSpec c = parseCase(cs);
